@@ -521,6 +521,18 @@ class _Parser(barectf_config_parse_common._Parser):
                                                                        pkt_end_ts_ft,
                                                                        pkt_disc_er_counter_snap_ft,
                                                                        pkt_seq_num_ft)
+
+            # the packet total size field type must be at least as large
+            # as the packet content size field type
+            total_size_ft = pkt_features.total_size_field_type
+            content_size_ft = pkt_features.content_size_field_type
+
+            if total_size_ft is not None and content_size_ft is not None and total_size_ft.size < content_size_ft.size:
+                exc = _ConfigurationParseError('`total-size-field-type` property',
+                                               f'Field type\'s size ({total_size_ft.size} bits) is less than the size of the packet content size field type ({content_size_ft.size} bits)')
+                exc._append_ctx('`packet` property')
+                _append_error_ctx(exc, '`$features` property')
+
             er_features = barectf_config.DataStreamTypeEventRecordFeatures(ert_id_ft, ert_ts_ft)
             features = barectf_config.DataStreamTypeFeatures(pkt_features, er_features)
 
